@@ -360,8 +360,17 @@ func checkFeeds(w *engine.World, b *base, ctx sdk.Context, events sdk.Events, ha
 }
 
 // evalEnv: price lists written with the keeper setter, one whole-app EndBlocker.
-func evalEnv(w *engine.World, b *base, items [3]item) []feedCheck {
+func evalEnv(w *engine.World, b *base, items [3]item, discarded bool) []feedCheck {
 	c := engine.Fork(b.ctx)
+	if discarded {
+		// a parameter update with another quorum is executed by the real handler on a branch that is thrown away (what
+		// x/gov does with a proposal whose later message fails): the stored parameters, and so the result, are unchanged
+		k := w.App.FeedsKeeper
+		g := engine.Fork(c)
+		p := k.GetParams(g)
+		p.PriceQuorum = otherQuorum(b.quorum)
+		mustOK("discarded MsgUpdateParams", w.Tx(g, 0, feedstypes.NewMsgUpdateParams(k.GetAuthority(), p)))
+	}
 	now := c.BlockTime().Unix()
 	k := w.App.FeedsKeeper
 	var held [3]Entry
@@ -381,6 +390,14 @@ func evalEnv(w *engine.World, b *base, items [3]item) []feedCheck {
 	}
 	events, halt := w.EndBlock(c)
 	return checkFeeds(w, b, c, events, halt, held, now, 0)
+}
+
+// otherQuorum is a quorum on the other side of every two-validator power sum of the scenarios.
+func otherQuorum(q string) string {
+	if q == "1" || q == "0.666666666666666667" {
+		return "0.05"
+	}
+	return "1"
 }
 
 // evalHist: prices submitted by real transactions in four consecutive blocks.
@@ -436,7 +453,7 @@ func evalWorldCase(w *engine.World, c WorldCase) (outs []string, viols []engine.
 	if c.Kind == "hist" {
 		fcs = evalHist(w, b, items)
 	} else {
-		fcs = evalEnv(w, b, items)
+		fcs = evalEnv(w, b, items, c.Kind == kindDiscarded)
 	}
 	for _, fc := range fcs {
 		outs = append(outs, fmt.Sprintf("block%d %s -> %s price=%d (statement admits %v: %s)", fc.Step, fc.Feed, fc.O.Status, fc.O.Price, fc.V.Want, fc.V.Reason))
@@ -482,7 +499,7 @@ func runWorld(r *engine.Run, tally *engine.Tally, quick bool, deadline time.Time
 			if kind == "hist" {
 				fcs = evalHist(worlds[wk], bases[wk], items)
 			} else {
-				fcs = evalEnv(worlds[wk], bases[wk], items)
+				fcs = evalEnv(worlds[wk], bases[wk], items, kind == kindDiscarded)
 			}
 			nontrivial := false
 			for _, fc := range fcs {
@@ -555,4 +572,16 @@ func runWorld(r *engine.Run, tally *engine.Tally, quick bool, deadline time.Time
 			return
 		}
 	}
+	// world layer again with a parameter update (another quorum) executed on a discarded branch before the EndBlocker
+	dp := envPairs
+	if quick {
+		dp = []pair{{"S0-genesis", "0.30"}, {"S3-equal", "0.666666666666666667"}}
+	}
+	for _, pr := range dp {
+		if !run(kindDiscarded, pr, worldItems()) {
+			return
+		}
+	}
 }
+
+const kindDiscarded = "world+discarded-params-update"
